@@ -658,6 +658,39 @@ func TestC11SourceHistories(t *testing.T) {
 				errs <- fmt.Sprintf("after the reload one.example.com is served %s, want %s of the new set (%s)", served("one.example.com"), set2[1].id, ctx)
 				return
 			}
+			// 4. a renewal: same names, same file names, same file sizes, new certificates
+			gen3 := gen2 + 300
+			set3 := []certSpec{{cn: "three.example.com", id: fmt.Sprintf("%d/0", gen3)}, {cn: "one.example.com", id: fmt.Sprintf("%d/1", gen3)}}
+			if len(set3[0].id) == len(set2[0].id) {
+				cur := current.Load().(fileSet)
+				var next fileSet
+				for try := 0; try < 200; try++ {
+					cand := goodFiles(set3)
+					same := len(cand) == len(cur)
+					for name, b := range cand {
+						if len(cur[name]) != len(b) {
+							same = false
+						}
+					}
+					if same {
+						next = cand
+						break
+					}
+				}
+				if next != nil {
+					current.Store(next)
+					if kind == "path" {
+						writeDir(certDir, next)
+					}
+					if !waitFor("three.example.com", set3[0].id, 15*time.Second) || !waitFor("one.example.com", set3[1].id, 15*time.Second) {
+						errs <- fmt.Sprintf("a renewal with unchanged file names and sizes never took effect: three.example.com still served %s, want %s (%s)", served("three.example.com"), set3[0].id, ctx)
+						return
+					}
+					hx.Class("history:renewal-same-sizes")
+				} else {
+					hx.Class("history:renewal-same-sizes-not-constructed")
+				}
+			}
 			hx.Eval()
 			hx.NonTrivial("hist|" + ctx + fmt.Sprint(h))
 			hx.Class("history:" + kind + ":" + bad)
